@@ -94,9 +94,15 @@ def gen_scene(rng, no_contacts=False):
     for k in range(int(rng.integers(1, 3))):
       geoms.append(rand_geom(f'g{b}_{k}', b))
   mode = rng.random()
-  if mode < 0.85:
+  emode = 'per-geom' if mode < 0.6 else 'tuple' if mode < 0.85 else 'scalar' if mode < 0.95 else 'default'
+  if mode < 0.6:
     es = [float(np.round(rng.uniform(0, 0.9), 3)) for _ in geoms]
     custom = f'<custom><numeric name="elasticity" data="{_f(es)}"/></custom>'
+  elif mode < 0.85:
+    # per-geom overrides through a <tuple> only (no numeric fallback): unlisted geoms keep the default 0
+    es = [float(np.round(rng.uniform(0.05, 0.9), 3)) if rng.random() < 0.7 else 0.0 for _ in geoms]
+    elems = ''.join(f'<element objtype="geom" objname="{g["name"]}" prm="{e!r}"/>' for g, e in zip(geoms, es) if e > 0)
+    custom = f'<custom><tuple name="elasticity">{elems}</tuple></custom>' if elems else ''
   elif mode < 0.95:
     e = float(np.round(rng.uniform(0, 0.9), 3))
     es = [e] * len(geoms)
@@ -120,7 +126,7 @@ def gen_scene(rng, no_contacts=False):
     out.append('</body>')
   out += ['</worldbody>', '</mujoco>']
   meta = dict(nb=nb, elasticity=es, body=[g['body'] for g in geoms], types=[g['type'] for g in geoms],
-              tilt=bool(tilt), emode='per-geom' if mode < 0.85 else 'scalar' if mode < 0.95 else 'default')
+              tilt=bool(tilt), emode=emode)
   return '\n'.join(out), meta
 
 
